@@ -41,7 +41,7 @@ def main():
     summary = {}
     with ThreadPoolExecutor(max_workers=jobs) as pool:
         for p, res in pool.map(one, patches):
-            key = os.path.basename(os.path.dirname(p)) if "/benign/" in p else p
+            key = os.path.basename(os.path.dirname(p)) if "/benign/" in os.path.abspath(p) else p
             if "_error" in res or "_skipped" in res:
                 summary[key] = {"verdict": "error"}
             else:
@@ -62,7 +62,8 @@ def main():
 
 if __name__ == "__main__":
     sm = main()
-    if any("/benign/" in a for a in sys.argv[1:]):
+    corpus = os.path.join(VERIF, "benign")
+    if any(os.path.abspath(a).startswith(corpus) for a in sys.argv[1:] if not a.startswith("-")):
         path = os.path.join(VERIF, "benign", "RESULTS.json")
         old = {}
         if os.path.exists(path):
